@@ -1,4 +1,5 @@
 import sys
+# unmarshalVarchar *string: null keeps the previous row's string
 p=sys.argv[1]+'/marshal.go'; s=open(p).read()
 old="""	case *string:
 		*v = string(data)
